@@ -2686,6 +2686,347 @@ def rule_parallel_lists(ck, solvers):
                 ck.ob("E7.parallel-lists", key, not bad, "; ".join(bad[:2]) if bad else "; ".join(sorted(set(notes))[:3]), f0.file, f0.line)
 
 
+
+# -------------------------------------------------------------------------------------------------
+# E8: derived state is fresh (numeric re-initialisation, solution/defect in step, validity flags)
+# -------------------------------------------------------------------------------------------------
+
+def base_key(k):
+    j = k.find("[")
+    return k[:j] if j >= 0 else k
+
+
+def matrix_derived_members(fn):
+    """taint analysis of one function: fields of *this whose new value is computed from _system_matrix
+    (directly or through locals / other derived fields) -> {field key: [writing nodes]}"""
+    lo = Locals(fn)
+    taint = {"this._system_matrix"}
+    writes = {}
+
+    def tainted(e):
+        for x in walk(e):
+            if x.get("k") in ("Ref", "Member"):
+                if base_key(objkey(lo, x)) in taint:
+                    return True
+        return False
+
+    def mark(key, node):
+        key = base_key(key)
+        if key.startswith("?") or key == "this._system_matrix" or key == "this":
+            return False
+        new = key not in taint
+        taint.add(key)
+        if node not in writes.setdefault(key, []):
+            writes[key].append(node)
+        return new
+    changed = True
+    rounds = 0
+    while changed and rounds < 20:
+        changed = False
+        rounds += 1
+        for n in fn.nodes():
+            k = n.get("k")
+            lr = as_assign(n) if k in ("Assign", "OpCall") else None
+            if k == "Assign" and lr is None:
+                lr = (n["lhs"], n["rhs"])           # compound assignment
+            if lr is not None:
+                if tainted(lr[1]):
+                    changed |= mark(objkey(lo, lr[0]), n)
+                continue
+            if k == "Var" and n.get("init") is not None and not n.get("ref"):
+                if tainted(n["init"]):
+                    changed |= mark("local:%s" % n["n"], n)
+                continue
+            if k != "MCall":
+                continue
+            obj = n.get("obj")
+            ko = base_key(objkey(lo, obj)) if obj is not None and obj.get("k") != "This" else None
+            if cname(n) in ("at", "front", "back", "size", "empty"):
+                continue
+            src = any(tainted(a) for a in n.get("a", [])) or (ko in taint)
+            if not src:
+                continue
+            if ko is not None and not n.get("cconst") and ko != "this._system_matrix":
+                changed |= mark(ko, n)
+            for i2, a in enumerate(n.get("a", [])):
+                pt = fn.type(n["pt"][i2]) if i2 < len(n.get("pt", [])) else ""
+                if ("&" in pt or "*" in pt) and "const" not in pt and strip(a).get("k") in ("Ref", "Member", "MCall"):
+                    changed |= mark(objkey(lo, a), n)
+    return {k: v for k, v in writes.items() if k.startswith("this.")}, lo
+
+
+def rule_numeric_refresh(ck, solvers):
+    """members computed from the matrix values in init_numeric are recomputed on every init_numeric"""
+    for sc in sorted(SOLVERS):
+        for fn in solvers.get(sc, {}).get("init_numeric", [])[:1]:
+            derived, lo = matrix_derived_members(fn)
+            par = parent_map(fn)
+            gd = Guards(fn)
+            done = [f for f in solvers.get(sc, {}).get("done_numeric", []) if f.cls == fn.cls]
+            for fld in sorted(derived):
+                key = "%s::init_numeric/%s" % (sc, fld[5:])
+                stmts = [stmt_of(fn, par, w) or w for w in derived[fld]]
+                stmts = [x for x in stmts if x is not None and "i" in x and fn.cfg.block_of(x["i"]) is not None]
+                if not stmts:
+                    ck.incomplete("E8.numeric-refresh", "%s: the statements computing it are not CFG elements" % key)
+                    continue
+                if any(fn.cfg.must_pass(lambda q, _i=x["i"]: q.get("i") == _i)[0] for x in stmts):
+                    ck.ob("E8.numeric-refresh", key, True, "recomputed from the system matrix on every path through init_numeric (line %s)" % stmts[0].get("l"), fn.file, stmts[0].get("l"))
+                    continue
+                state_guards, cfg_guards = [], []
+                for x in stmts:
+                    for c, pol in gd.of_stmt(x["i"]):
+                        names = {base_key(objkey(lo, y)) for y in walk(c) if y.get("k") in ("Ref", "Member")}
+                        (state_guards if names & set(derived) else cfg_guards).append(("" if pol else "!") + render(c)[:50])
+                if not state_guards:
+                    ck.ob("E8.numeric-refresh", key, True, "recomputed whenever %s (a test of configuration / loop control, not of derived state)" % ", ".join(sorted(set(cfg_guards))[:3]), fn.file, stmts[0].get("l"))
+                    continue
+                # recomputation depends on the (possibly stale) derived state itself: then done_numeric must release it
+                released = False
+                for dfn in done:
+                    dlo = Locals(dfn)
+                    for c in dfn.calls():
+                        if c.get("k") == "MCall" and cname(c) in ("clear",) and c.get("obj") is not None and base_key(objkey(dlo, c["obj"])) == fld \
+                                and dfn.cfg.must_pass(lambda q, _i=c["i"]: q.get("i") == _i)[0]:
+                            released = True
+                ck.ob("E8.numeric-refresh", key, released,
+                      ("recomputation is skipped depending on %s, and done_numeric() releases %s: every init_numeric after done_numeric recomputes it" % (", ".join(sorted(set(state_guards))[:2]), fld[5:])) if released else
+                      ("the value computed from the system matrix is only (re)computed under %s, a test of the derived member's own state, and done_numeric() does not release it: after done_numeric(); <matrix values changed>; init_numeric() "
+                       "the solver keeps the data of the old matrix" % ", ".join(sorted(set(state_guards))[:2])), fn.file, stmts[0].get("l"))
+
+
+BALANCE_SCOPE = ("PCG", "PCR", "PMR", "PCGNR", "PCGNRILU", "BiCGStab", "RBiCGStab", "GroppPCG", "PipePCG", "RGCR", "Richardson", "Chebyshev", "FGMRES", "GMRES")
+# IDRS (updates through pre-scaled difference vectors dX/dR, coefficient hidden in the vectors) and BiCGStabL
+# (residual family r_j with polynomial coefficients) do not update x and r with one explicit scalar per step.
+
+
+def signed_coef(lo, e):
+    t = term(lo, e) if e is not None else "1"
+    m = re.match(r"^neg\((.*)\)$", t)
+    if m:
+        return m.group(1), -1
+    if re.match(r"^-\d", t):
+        return t[1:], -1
+    return t, 1
+
+
+class BalanceFlow:
+    """forward dataflow: multiset of signed step lengths applied to the iterate (x += c w) and to the defect
+    vector (r += -c A w).  r = b - A x needs every step length to cancel; a fresh r := b - A x resets."""
+
+    def __init__(self, fn, sol_key, def_key):
+        self.fn, self.sol, self.dfk = fn, sol_key, def_key
+        self.lo = Locals(fn)
+        self.at_return = {}
+        self.unknown_ops = []
+        cfg = fn.cfg
+        self.ins = {cfg.entry: ()}
+        work = [cfg.entry]
+        n = 0
+        while work and n < 5000:
+            n += 1
+            b = work.pop()
+            out = self.transfer(b, self.ins[b], False)
+            for s2 in cfg.succ.get(b, []):
+                old = self.ins.get(s2, "none")
+                new = out if old == "none" else (old if old == out else None)
+                if old == "none" or new != old:
+                    self.ins[s2] = new
+                    work.append(s2)
+        for b in list(self.ins):
+            self.transfer(b, self.ins[b], True)
+
+    @staticmethod
+    def add(st, c, s):
+        if st is None:
+            return None
+        d = dict(st)
+        d[c] = d.get(c, 0) + s
+        return tuple(sorted((k, v) for k, v in d.items() if v != 0))
+
+    def transfer(self, b, st, record):
+        fn, lo = self.fn, self.lo
+        for sid in fn.cfg.blocks[b]["el"]:
+            n = fn.by_id(sid)
+            if n is None:
+                continue
+            if n.get("k") == "Return" and record:
+                self.at_return[sid] = st
+                continue
+            if n.get("k") != "MCall":
+                continue
+            nm = cname(n)
+            obj = n.get("obj")
+            ko = objkey(lo, obj) if obj is not None and obj.get("k") != "This" else None
+            roles = dict(zip(n.get("pn", []), n.get("a", [])))
+            if ko in (self.sol, self.dfk):
+                if nm == "axpy":
+                    c, sg = signed_coef(lo, roles.get("alpha"))
+                    st = self.add(st, c, sg)
+                elif not n.get("cconst") and nm not in ("at", "front", "back"):
+                    st = None
+                    if record:
+                        self.unknown_ops.append("line %s: %s" % (n.get("l"), render(n)[:50]))
+                continue
+            if nm == "apply" and ko is not None and ko.startswith("this._system_matrix") and "r" in roles and objkey(lo, roles["r"]) == self.dfk:
+                if "y" in roles and objkey(lo, roles["x"]) == self.sol and is_minus_one(lo, roles["alpha"]):
+                    st = ()          # r := y - A x, freshly computed from the iterate
+                else:
+                    st = None
+                    if record:
+                        self.unknown_ops.append("line %s: %s" % (n.get("l"), render(n)[:50]))
+                continue
+            for i2, a in enumerate(n.get("a", [])):
+                if strip(a).get("k") not in ("Ref", "Member", "MCall"):
+                    continue
+                ka = objkey(lo, a)
+                if ka in (self.sol, self.dfk):
+                    pt = fn.type(n["pt"][i2]) if i2 < len(n.get("pt", [])) else ""
+                    if ("&" in pt or "*" in pt) and "const" not in pt and nm not in ("filter_def", "filter_cor", "filter_sol", "filter_rhs"):
+                        st = None
+                        if record:
+                            self.unknown_ops.append("line %s: %s" % (n.get("l"), render(n)[:50]))
+        return st
+
+
+def rule_solution_defect_balance(ck, solvers, cv=None):
+    for sc in BALANCE_SCOPE:
+        fns = solvers.get(sc, {}).get("_apply_intern", [])
+        if not fns:
+            ck.incomplete("E8.solution-defect-balance", "anchor %s::_apply_intern not instantiated" % sc)
+            continue
+        bad, notes = [], []
+        for fn in fns:
+            tag = short_inst(fn)
+            lo = Locals(fn)
+            cands, _s, _f = status_helpers(solvers.get(sc, {}), fn.cls, cv or {})
+            dk = find_defect_obj(fn, lo, cands)
+            if dk is None or dk.startswith("?"):
+                ck.incomplete("E8.solution-defect-balance", "%s::_apply_intern [%s]: defect vector not identified" % (sc, tag))
+                continue
+            bf = BalanceFlow(fn, "$0", dk)
+            sflow = StatusFlow(fn, cv or {}, _s) if cv else None
+            nret = 0
+            for rid, st in sorted(bf.at_return.items()):
+                rn = fn.by_id(rid)
+                vals = sflow.returns.get(rid) if sflow is not None else None
+                if status_lit(rn.get("e")) == "aborted" or (vals and {v[0] for v in vals} == {"aborted"}):
+                    continue            # the iterate of an aborted run is not claimed to be a solution
+                nret += 1
+                if st is None:
+                    ck.incomplete("E8.solution-defect-balance", "%s::_apply_intern [%s]: at the return at line %s the updates of iterate and defect cannot be related (%s)" % (
+                        sc, tag, rn.get("l"), "; ".join(bf.unknown_ops[:2]) or "path-dependent"))
+                elif st:
+                    pend = ", ".join("%s%s" % ("+" if v > 0 else "-", c) + ("" if abs(v) == 1 else "*%d" % abs(v)) for c, v in st)
+                    bad.append("[%s] at `%s` (line %s) iterate and defect vector are out of step: the step lengths {%s} were applied to only one of %s += c*w and %s -= c*A*w. "
+                               "The status decided on the defect norm is returned with an iterate whose true residual is a different vector" % (tag, render(rn)[:40], rn.get("l"), pend, fn.params[0]["n"], dk))
+            notes.append("[%s] %d returns with balanced updates" % (tag, nret))
+        ck.ob("E8.solution-defect-balance", "%s::_apply_intern" % sc, not bad, "; ".join(bad[:2]) if bad else "; ".join(notes[:2]), fns[0].file, fns[0].line)
+
+
+def rule_iterate_additive(ck, solvers):
+    """_apply_intern serves apply() (x0 = 0) and correct() (x0 given): the iterate may only be updated additively"""
+    for sc in sorted(SOLVERS):
+        fns = solvers.get(sc, {}).get("_apply_intern", [])
+        if not fns:
+            ck.incomplete("E7.iterate-additive", "anchor %s::_apply_intern not instantiated" % sc)
+            continue
+        bad, n_upd = [], 0
+        for fn in fns:
+            tag = short_inst(fn)
+            lo = Locals(fn)
+            for k, c in object_uses(fn, lo, "$0"):
+                if k == "recv-mut" and cname(c) == "axpy":
+                    n_upd += 1
+                elif k == "recv-mut" and cname(c) in ("copy", "scale") and c.get("a"):
+                    src = objkey(lo, c["a"][0])
+                    if src == "$0":
+                        ck.incomplete("E7.iterate-additive", "%s::_apply_intern [%s] line %s: the iterate is rescaled in place (%s)" % (sc, tag, c.get("l"), render(c)[:50]))
+                        continue
+                    # where does the source come from: an operator applied to the whole iterate?
+                    op = None
+                    for d in fn.calls():
+                        roles = dict(zip(d.get("pn", []), d.get("a", [])))
+                        if cname(d).startswith("_apply_precond") and len(d.get("a", [])) >= 2 and objkey(lo, d["a"][0]) == src and objkey(lo, d["a"][1]) == "$0" and fn.cfg.stmt_dominates(d["i"], c["i"]):
+                            op = "the preconditioner M"
+                        elif cname(d) == "apply" and "r" in roles and objkey(lo, roles["r"]) == src and objkey(lo, roles.get("x", {})) == "$0" and fn.cfg.stmt_dominates(d["i"], c["i"]):
+                            op = "the matrix"
+                    if op:
+                        bad.append("[%s] line %s: `%s` overwrites the iterate with %s applied to the whole iterate: started through correct() with x0 != 0 the result is T(x0 + y) instead of x0 + T(y) "
+                                   "(the start vector is transformed, the reported defect no longer belongs to the returned vector)" % (tag, c.get("l"), render(c)[:50], op))
+                    else:
+                        ck.incomplete("E7.iterate-additive", "%s::_apply_intern [%s] line %s: the iterate is overwritten by %s, whose relation to the iterate is not modelled" % (sc, tag, c.get("l"), src))
+                elif k == "recv-mut":
+                    ck.incomplete("E7.iterate-additive", "%s::_apply_intern [%s] line %s: non-additive operation on the iterate: %s" % (sc, tag, c.get("l"), render(c)[:50]))
+                elif k == "arg-mut" and cname(c) not in ("filter_sol", "filter_cor"):
+                    ck.incomplete("E7.iterate-additive", "%s::_apply_intern [%s] line %s: the iterate is handed to %s in a mutable position" % (sc, tag, c.get("l"), cname(c)))
+        ck.ob("E7.iterate-additive", "%s::_apply_intern" % sc, not bad, "; ".join(bad[:2]) if bad else "the iterate is only updated by axpy (%d sites)" % n_upd, fns[0].file, fns[0].line)
+
+
+def rule_validity_flags(ck, solvers):
+    """a bool member set to true by the function that fills some member object is reset wherever that object is released / reallocated"""
+    total = 0
+    for sc in sorted(SOLVERS):
+        members = solvers.get(sc, {})
+        setters = {}      # flag -> (function, objects written there)
+        for name, fl in members.items():
+            fn = fl[0]
+            if fn.d.get("ctor") or fn.cfg is None:
+                continue
+            lo = Locals(fn)
+            for n in fn.nodes():
+                lr = as_assign(n)
+                if lr is None:
+                    continue
+                l, r = strip(lr[0]), strip(lr[1])
+                if l.get("k") == "Member" and l.get("field") and r.get("k") == "Bool" and r.get("v") is True and "bool" in (fn.ntype(l) or ""):
+                    objs = set()
+                    for c in fn.calls():
+                        if c.get("k") == "MCall" and c.get("obj") is not None and c["obj"].get("k") != "This" and not c.get("cconst"):
+                            kk = base_key(objkey(lo, c["obj"]))
+                            if kk.startswith("this."):
+                                objs.add(kk)
+                    if objs:
+                        setters[l["n"]] = (fn, objs)
+        for flag, (sfn, objs) in sorted(setters.items()):
+            total += 1
+            key = "%s/%s" % (sc, flag)
+            bad, notes = [], []
+
+            def resets(fn):
+                lo = Locals(fn)
+                for n in fn.nodes():
+                    lr = as_assign(n)
+                    if lr is not None and strip(lr[0]).get("k") == "Member" and strip(lr[0]).get("n") == flag and strip(lr[1]).get("k") == "Bool" and strip(lr[1]).get("v") is False:
+                        st = stmt_of(fn, parent_map(fn), n) or n
+                        if fn.cfg.must_pass(lambda q, _i=st.get("i"): q.get("i") == _i)[0]:
+                            return True
+                return False
+            done_resets = any(resets(f) for f in members.get("done_symbolic", [])[:1])
+            for name, fl in sorted(members.items()):
+                fn = fl[0]
+                if fn is sfn or fn.d.get("ctor") or fn.d.get("dtor") or fn.cfg is None:
+                    continue
+                lo = Locals(fn)
+                inval = []
+                for c in fn.calls():
+                    if c.get("k") == "MCall" and c.get("obj") is not None and objkey(lo, c["obj"]) in objs and cname(c) in ("clear", "push_back", "emplace_back", "resize", "assign", "pop_back"):
+                        inval.append(c)
+                for n in fn.nodes():
+                    lr = as_assign(n)
+                    if lr is not None and objkey(lo, lr[0]) in objs:
+                        inval.append(n)
+                if not inval:
+                    continue
+                if resets(fn) or (name == "init_symbolic" and done_resets):
+                    notes.append("%s() resets it" % name)
+                else:
+                    bad.append("%s() releases/reallocates %s (line %s: %s) but leaves %s == true: after %s() the guarded set-up in %s() is skipped and %s is used with unspecified contents" % (
+                        name, ", ".join(sorted(o[5:] for o in objs)), inval[0].get("l"), render(inval[0])[:40], flag, name, sfn.name, ", ".join(sorted(o[5:] for o in objs))))
+            ck.ob("E8.validity-flag", key, not bad, "; ".join(bad[:2]) if bad else ("set in %s(); " % sfn.name) + "; ".join(notes), sfn.file, sfn.line)
+    return total
+
+
 # -------------------------------------------------------------------------------------------------
 # E6: dimensional consistency of the recurrences
 # -------------------------------------------------------------------------------------------------
@@ -2740,6 +3081,22 @@ def rule_dimensions(ck, solvers):
 
 
 RULES = [
+    ("E8.numeric-refresh", 7,
+     "taint analysis of every init_numeric override (PCGNR, PCGNRILU, Chebyshev): each member whose value is computed from _system_matrix (directly or through "
+     "locals / other derived members) is recomputed on every path, or only skipped under tests of configuration / loop control; if the recomputation is "
+     "guarded by the derived member's own state (e.g. `if(X.empty())`), done_numeric() must release X on every path. Broken => history: init(); solve; "
+     "done_numeric(); matrix values updated in place; init_numeric(); solve — the solver iterates with data of the old matrix."),
+    ("E8.solution-defect-balance", 14,
+     "in _apply_intern of 14 solvers: dataflow of the signed step lengths applied to the iterate (x.axpy(w, c)) and to the vector measured by the convergence "
+     "control (r.axpy(Aw, -c)); a fresh r := rhs - A x resets. At every return that is not `Status::aborted` the two multisets cancel. Broken => input class: "
+     "runs ending through that return (e.g. the BiCGStab half-step exit): the status and the reported defect belong to an iterate that was never returned."),
+    ("E7.iterate-additive", 16,
+     "_apply_intern is shared by apply() (x0 = 0) and correct() (x0 given): the iterate parameter is only updated by axpy; overwriting it with an operator applied "
+     "to the whole iterate (x := M x) is a violation. Broken => correct() with a non-zero start vector returns T(x0 + y) instead of x0 + T(y)."),
+    ("E8.validity-flag", 1,
+     "a bool member that some member function sets to true together with filling a member object (IDRS::_shadow_space_setup / _vec_P) is reset to false on "
+     "every path of each function that releases or reallocates that object (or, for init_symbolic, by done_symbolic). Broken => history: init(); solve; done(); "
+     "init(); solve — the set-up is skipped and the reallocated object is used uninitialised."),
     ("E7.parallel-lists", 9,
      "std::vector<VectorType> fields of one solver that are subscripted with the same index (discovered by co-indexing: RGCR p_list/q_list, FGMRES _vec_v/_vec_z, "
      "IDRS _vec_P/_vec_dR/_vec_dX, BiCGStabL _vec_rj_hat/_vec_uj_hat) are parallel arrays. Symbolic length dataflow (push_back/emplace_back/pop_back/clear/"
@@ -2853,6 +3210,10 @@ def run(tier):
     rule_dimensions(ck, solvers)
     rule_inner_criteria(ck, solvers)
     rule_parallel_lists(ck, solvers)
+    rule_numeric_refresh(ck, solvers)
+    rule_solution_defect_balance(ck, solvers, cv)
+    rule_iterate_additive(ck, solvers)
+    rule_validity_flags(ck, solvers)
     ck.assume("comparisons are over a total order (a<b == !(b<=a)): NaN defects are excluded by the isfinite tests that the decision tables show to come first")
     ck.assume("virtual calls resolve to the statically named callee: none of the 16 solvers overrides _set_initial_defect/_set_new_defect/_update_defect/_analyse_defect/_calc_def_norm")
     ck.assume("inner counted loops of _apply_intern run at least once (krylov_dim, l >= 1 are asserted by the constructors/setters)")
